@@ -58,6 +58,13 @@ func buildC09(p *Plan, evs []Ev) *c09Model {
 	var in []*dlvEv
 	var endT int64
 	connAt := int64(-1)
+	// connection-state requests the socket refused (by instant): the exchange fails there and then
+	hbRefused := map[int64]bool{}
+	for _, e := range evs {
+		if e.K == "out" && e.Svc == "ConnStateReq" && e.Err != "" {
+			hbRefused[e.T] = true
+		}
+	}
 	for _, e := range evs {
 		endT = e.T
 		switch {
@@ -218,6 +225,36 @@ func buildC09(p *Plan, evs []Ev) *c09Model {
 			stop := dec
 			if cut >= 0 {
 				stop = cut
+			}
+			// a transmission of this exchange that the socket refused ends the exchange (and the epoch) at that instant,
+			// whatever would have arrived later
+			if len(hbRefused) > 0 {
+				if m.relaxed {
+					m.bail = "a refused connection-state request with overlapping exchanges"
+					return m
+				}
+				for j := int64(0); x+j*r <= stop; j++ {
+					if t := x + j*r; hbRefused[t] {
+						if t == stop && j > 0 {
+							m.bail = "a refused connection-state request at the very instant the exchange is decided"
+							return m
+						}
+						// deliveries consumed beyond t belong to the reconnect that starts at t
+						for i > idx && in[i-1].t > t {
+							i--
+							in[i].used = false
+						}
+						for q := i - 1; q >= idx && q >= 0 && in[q].t == t; q-- {
+							m.bail = "a delivery coincides with a refused connection-state request"
+							return m
+						}
+						for jj := int64(0); jj <= j; jj++ {
+							m.emits = append(m.emits, ctlEmit{t: x + jj*r, svc: "ConnStateReq", ch: ch, why: fmt.Sprintf("exchange %d, transmission %d", k, jj)})
+						}
+						endAt, endWhy = t, "heartbeat"
+						break epoch
+					}
+				}
 			}
 			if m.relaxed {
 				// only the first transmission of every exchange is predicted; the rest is checked against the
@@ -697,6 +734,12 @@ func genPlanC09(rt *rapid.T) *Plan {
 		p.TailUs = 2000
 		return p
 	}
+	if rapid.IntRange(0, 4).Draw(rt, "heartbeat-write-fails") == 0 {
+		// the socket refuses some connection-state requests (first transmissions and repetitions alike)
+		for i := 0; i < rapid.IntRange(1, 2).Draw(rt, "n-hb-fail"); i++ {
+			p.FailHb = append(p.FailHb, rapid.IntRange(0, 8).Draw(rt, "hb-fail-at"))
+		}
+	}
 	ns := rapid.IntRange(0, 4).Draw(rt, "sends")
 	var lane []AppStep
 	for i := 0; i < ns; i++ {
@@ -950,6 +993,65 @@ judge:
 
 const c09Grace = int64(100e6)
 
+// sameChannelRestart: "restart at 0" when the gateway hands out the same channel number again (channels tell nothing
+// then): a request whose first transmission lies after the client took the last connect response is on the last
+// connection, and its number is at most the count of requests first transmitted since that response was sent (each of
+// them took one number at most; a request that was pending across the reconnect keeps its old number and takes none).
+func sameChannelRestart(p *Plan, evs []Ev) *common.Fail {
+	if p.DefConn.Ch != -1 {
+		return nil
+	}
+	var inj, dlv []int64
+	for _, e := range evs {
+		if e.Svc == "ConnRes" && e.St == 0 {
+			switch e.K {
+			case "inj":
+				inj = append(inj, e.T)
+			case "dlv":
+				dlv = append(dlv, e.T)
+			}
+		}
+	}
+	if len(inj) < 2 || len(dlv) != len(inj) {
+		return nil
+	}
+	// the reference is the first connect response sent after the last disconnect request (a later one can be the second
+	// answer to a repeated connect request, which the client ignores)
+	tDisc := int64(-1)
+	for _, e := range evs {
+		if e.K == "inj" && e.Svc == "DiscReq" {
+			tDisc = e.T
+		}
+	}
+	ref := -1
+	for i, t := range inj {
+		if tDisc >= 0 && t >= tDisc {
+			ref = i
+			break
+		}
+	}
+	if ref < 0 {
+		return nil
+	}
+	lastInj, lastDlv := inj[ref], dlv[ref]
+	seenTag := map[int]bool{}
+	k := 0
+	for i, e := range evs {
+		if e.K != "out" || e.Svc != "TunnelReq" || seenTag[e.Tag] {
+			continue
+		}
+		seenTag[e.Tag] = true
+		if e.T > lastDlv && e.Seq > k && e.Seq < 200 {
+			return failTrace(evs, i, "counter-not-reset", "telegram %d was first transmitted at %s, after the client had taken the connect response of the last reconnect (same channel %d, response sent at %s, taken by %s), and carries sequence number %d; only %d requests have been transmitted for the first time since that response was sent, so its number can be %d at most",
+				e.Tag, ms(e.T), e.Ch, ms(lastInj), ms(lastDlv), e.Seq, k, k)
+		}
+		if e.T >= lastInj {
+			k++
+		}
+	}
+	return nil
+}
+
 func oracleC09R(p *Plan, res *Result) (*common.Fail, bool) {
 	evs := res.Events
 	type stamp struct {
@@ -976,6 +1078,9 @@ func oracleC09R(p *Plan, res *Result) (*common.Fail, bool) {
 		return out
 	}
 	offers, ends := collect("ConnRes"), collect("DiscReq")
+	if f := sameChannelRestart(p, evs); f != nil {
+		return f, false
+	}
 	first := map[int]bool{}
 	firstHex := map[int]string{}
 	lastCh := -1
@@ -1075,6 +1180,12 @@ func genPlanC09R(rt *rapid.T) *Plan {
 	p.Gw = []GwStep{{AfterUs: rapid.IntRange(4000, 40000).Draw(rt, "disc-at"), Kind: "discreq", Chan: "cur"}}
 	if rapid.Bool().Draw(rt, "second-reconnect") {
 		p.Gw = append(p.Gw, GwStep{AfterUs: rapid.IntRange(20000, 200000).Draw(rt, "disc2-at"), Kind: "discreq", Chan: "cur"})
+	} else if rapid.Bool().Draw(rt, "late-ack") {
+		// a delayed acknowledgement of the old connection for the request that is still pending arrives after the
+		// reconnect (same channel number: the client cannot tell and takes it; the numbering of the new connection
+		// starts at 0 all the same)
+		p.DefConn.Ch = -1
+		p.Gw = append(p.Gw, GwStep{AfterUs: rapid.IntRange(3000, 25000).Draw(rt, "late-ack-at"), Kind: "ack", Chan: "cur", Abs: len(p.Ack) - lost})
 	}
 	return p
 }
